@@ -114,6 +114,8 @@ type Options struct {
 	ReaderObs bool // observe through GetReader as well as Get
 	ObsAutoOnly bool // observe through the autocommit actor only
 	NoObs    bool // no observation after steps (the caller observes itself)
+	OnStart  func(r *Runner, op Op) // before the operation is issued
+	OnAck    func(r *Runner, op Op) // right after the operation returned, before background work settles
 	Epilogue func(r *Runner) *Mismatch
 	AfterStep func(r *Runner, i int, op Op) *Mismatch
 }
@@ -184,6 +186,23 @@ func modelActor(a int) int {
 
 // Apply executes one operation on the implementation and the model and compares the result class.
 func (r *Runner) Apply(op Op) *Mismatch {
+	if r.Opt.OnStart != nil {
+		r.Opt.OnStart(r, op)
+	}
+	m := r.apply(op)
+	if m == nil && r.Opt.OnAck != nil {
+		r.Opt.OnAck(r, op)
+	}
+	if m == nil {
+		if r.Opt.Eager {
+			vrt.Quiesce()
+		}
+		r.FPs[r.M.Fingerprint()] = struct{}{}
+	}
+	return m
+}
+
+func (r *Runner) apply(op Op) *Mismatch {
 	r.Step++
 	id := r.Step
 	st, ctx := r.store(op.Actor)
@@ -304,10 +323,6 @@ func (r *Runner) Apply(op Op) *Mismatch {
 			return m
 		}
 	}
-	if r.Opt.Eager {
-		vrt.Quiesce()
-	}
-	r.FPs[r.M.Fingerprint()] = struct{}{}
 	return nil
 }
 
